@@ -21,17 +21,17 @@ PER_CHECK = {
  "C02": "Same steering; oracle: pairwise non-overlap per worker, cumulative capacity at every instant, assignment / dynamic spans, selection count and membership, work amounts (unit workers read from the engine model).",
  "C03": "Same steering; oracle: documented relation of every mandatory task constraint (three-valued reference semantics, UNSPECIFIED abstains).",
  "C04": "Same steering; oracle: documented meaning of every mandatory resource constraint, incl. periodic windows of following periods, workload overlaps, distances, interruptions, same/distinct selections.",
- "C05": "Completeness by refinement sampling: candidates the reference model classifies VALID on every element (exhaustive enumeration on tiny specs, seeded sampler otherwise) are pinned on the first engine check of solve(); a refusal is a lost schedule; a False verdict with a known valid candidate is a false unsat. The judge re-validates each candidate against the spec it judges.",
+ "C05": "Completeness by refinement sampling: candidates the reference model classifies VALID on every element (exhaustive enumeration on tiny specs, seeded sampler otherwise) are pinned on the first engine check of solve(); a refusal is a lost schedule; a False verdict with a known valid candidate is a false unsat. The judge re-validates each candidate against the spec it judges. Focused scenario profiles (several interruptible tasks on one interrupted worker, optional variants of constraints) are mixed into a fraction of the runs.",
  "C06": "Inertness rules on every schedule with an unscheduled optional task, optional-task rules, twin clients (problem vs problem with the unscheduled tasks deleted) admitting each other's schedules, and reference-valid candidates per unscheduled subset.",
- "C07": "The incremental optimiser under a full environment schedule (first models steered away from / onto bounds, injected unknown, simulated slow checks crossing max_time and the extrapolated-time stop, max_iter, disk errors inside save_intermediate_states); referees: examiner ('strictly better' pinned), second optimiser, exhaustive reference optimum on tiny specs, incumbent monitor at the engine seam, Optimize referee.",
+ "C07": "The incremental optimiser under a full environment schedule (first models steered away from / onto bounds, injected unknown, simulated slow checks crossing max_time and the extrapolated-time stop, max_iter, disk errors inside save_intermediate_states); referees: examiner ('strictly better' pinned), second optimiser, exhaustive reference optimum on tiny specs, incumbent monitor at the engine seam, Optimize referee (galloping + bisection over the optimiser's own assertions). Objective targets include user expressions with declared bounds and the due-date indicators (optimum 0 or negative); the first model may be pinned on a bound or on objective value 0.",
  "C08": "Indicator values recomputed from the reported schedule (steered schedules, indicator unknowns themselves pinned away), targets/bounds checked.",
  "C09": "Engine model choice = interleaving of load/unload instants incl. ties; event-ordered replay of every reported buffer.",
- "C10": "Formula evaluated with Python connectives over operand meanings on every returned schedule; applied flags from the engine model; reference-valid candidates (preferring those violating an operand alone) pinned to expose leaked operands / too strong encodings.",
+ "C10": "Formula evaluated with Python connectives over operand meanings on every returned schedule; applied flags from the engine model; reference-valid candidates (preferring those violating an operand alone) pinned to expose leaked operands / too strong encodings; any task / resource constraint kind may be declared optional, and a refused reference-valid schedule whose only culprit is an optional constraint is a violation (unapplied must exclude nothing).",
  "C11": "Field-by-field cross-checks of every returned solution object (task view vs resource view, calendar arithmetic, horizon, equality with the engine model handed out at the seam).",
  "C12": "History oracle over solve / find_another* sequences with transient injected unknowns and steered enumeration order: validity, distinctness, legality of False (examiner with the accumulated blocking state), exhaustive count against the enumerator on tiny specs.",
  "C13": "History oracle over random call sequences on one solver object under early-stop faults (unknown, virtual timeout, max_iter, disk error inside the loop): reference model = valid schedules (examiner) + documented blocking state.",
- "C14": "Twin clients (renamed + permuted) and two executions in one child (pristine, then after a prelude incl. an 'evil twin' reusing every name): verdicts, optima and cross-pins compared.",
- "C15": "One spec under 2-4 configurations (optimizer, priority, random_values, debug, covering logics, parallel stub): validity everywhere, agreement of definite answers, engine crashes and engine non-optimal answers classified apart.",
+ "C14": "Twin clients (renamed; declaration order of tasks, workers, constraints, indicators, buffers and resource assignments permuted) and two executions in one child (pristine, then after a prelude incl. an 'evil twin' reusing every name): verdicts, optima and cross-pins compared.",
+ "C15": "One spec under 2-4 configurations (optimizer, priority, random_values, debug, covering logics, parallel stub): validity everywhere, agreement of definite answers, engine crashes and engine non-optimal answers classified apart; search-order options are simulated by varying the model the incremental loop starts from (a declared bound, 0, far from the optimum).",
  "C16": "Exports read back with independent parsers (json, csv, zipfile+xml, z3 SMT-LIB parser) and compared with the solution object; injected I/O faults (open/write/close, short write) on the repository's own open() calls; exported SMT-LIB re-solved and its model pinned on a fresh client.",
  "C19": "Planted conflicts (incl. multi-assertion and forced-optional ones) among irrelevant constraints; printed diagnosis read as objects; named subset re-solved; debug vs normal verdict; injected tracking-literal collision and global-option interference.",
 }
